@@ -52,15 +52,24 @@ MaskLen == (NStems + 7) \div 8
 InRange(v) == Abs(v) <= MaxG
 
 \* ---- stems: 2n increasing-or-not edges built from deltas (edge hints have negative widths)
-Edges(n, dummy) ==
-  LET step(acc, i) == Append(acc, (IF acc = <<>> THEN 0 ELSE acc[Len(acc)]) + Rnd(SD))
+\* wide > 0 (stem plans <<nh, nv, wide>>): the first edge lies at -20000 and delta number `wide` is 40000 -- a
+\* stem, or a gap between stems, wider than the largest Type 2 operand, which the encoder has to write as a sum
+\* (one more stack entry while the other 2n - 1 operands are waiting)
+Edges(n, dummy, wide) ==
+  LET step(acc, i) == Append(acc, (IF acc = <<>> THEN 0 ELSE acc[Len(acc)])
+                                   + (IF wide = 0 THEN Rnd(SD)
+                                      ELSE IF i = wide THEN 40000 * GUnit
+                                      ELSE IF i = 1 THEN -20000 * GUnit
+                                      ELSE Rnd({-3 * GUnit, 2 * GUnit, 5 * GUnit})))
   IN FoldLeft(step, <<>>, [i \in 1..(2 * n) |-> i])
 MaskBytes(dummy) == [i \in 1..MaskLen |-> Rnd({0, 1, 128, 255, 170})]
 
 StartGlyph ==
   /\ st = "new"
   /\ \E p \in Pick(IF SweepOnly /\ Len(font) = 0 THEN {<<0, 0>>} ELSE StemPlans) :
-       g' = [w |-> wp[(Len(font) % Len(wp)) + 1], hs |-> Edges(p[1], Len(font)), vs |-> Edges(p[2], Len(font) + 1),
+       g' = [w |-> wp[(Len(font) % Len(wp)) + 1],
+             hs |-> Edges(p[1], Len(font), IF Len(p) = 3 /\ p[3] <= 2 * p[1] THEN p[3] ELSE 0),
+             vs |-> Edges(p[2], Len(font) + 1, IF Len(p) = 3 /\ p[3] > 2 * p[1] THEN p[3] - 2 * p[1] ELSE 0),
              cmds |-> <<>>]
   /\ st' = "body" /\ x' = 0 /\ y' = 0 /\ steps' = 0 /\ moved' = FALSE
   /\ UNCHANGED <<font, ng, wp>>
@@ -250,19 +259,22 @@ Sweep ==
 
 (***************************************************************************)
 (* Number-range sweep: one coordinate delta of exactly 32767, 32768, 32769 *)
-(* (the largest Type 2 number is 32767.99998), 63999 or 64000 (corner to   *)
-(* corner), of either sign, on x, y or both, as a move, a line, two lines  *)
+(* (the largest Type 2 number is 32767.99998), 40000, 40001 (an even and an *)
+(* odd integer part), 63999 or 64000 (corner to corner), of either sign, on x, y or both, as a move, a line, two lines  *)
 (* in a row, the first or the last delta of a curve.  Both end points are  *)
 (* inside the coordinate range.                                            *)
 (***************************************************************************)
-SweepDeltas == {32767, 32768, 32769, 63999, 64000}
+SweepDeltas == {32767, 32768, 32769, 40000, 40001, 63999, 64000}
+\* with a unit finer than 1 (quarters: GUnit = 4, exact in 16.16) the delta also gets every fractional part:
+\* the sum form must carry the fraction of even and of odd integer parts (32767.75 still fits one operand)
+FracParts == IF GUnit = 1 THEN {0} ELSE {0, 1, GUnit \div 2, GUnit - 1}
 DeltaSweep ==
   /\ Body /\ (SweepOnly \/ FarJumps) /\ "delta" \in SweepKinds
   /\ MaxG \div GUnit >= 32000                     \* integer configuration only (32-bit arithmetic)
   /\ SweepOnly => (steps = 0 /\ Len(font) > 0 /\ NStems <= 2)
-  /\ \E d0 \in Pick(SweepDeltas), sg \in Pick({-1, 1}), ax \in Pick({"x", "y", "xy"}),
+  /\ \E d0 \in Pick(SweepDeltas), fr \in Pick(FracParts), sg \in Pick({-1, 1}), ax \in Pick({"x", "y", "xy"}),
         kind \in Pick({"m", "l", "ll", "c1", "c3"}) :
-       LET d  == sg * d0 * GUnit
+       LET d  == sg * (d0 * GUnit + fr)
            dx == IF ax \in {"x", "xy"} THEN d ELSE 0
            dy == IF ax \in {"y", "xy"} THEN d ELSE 0
            sx == -(dx \div 2)   sy == -(dy \div 2)
